@@ -19,7 +19,7 @@ CONFIG = {
     "level_note": ("Folder renames and moves across nested histories are outside the property's quantifier and are not "
                    "generated; one rename step per file between generations."),
     "technique": "deterministic simulation: seeded rename/move sets with previousPath/exit-code oracle and a no-dr control world",
-    "quick": {"runs": 720, "budget_s": 90},
+    "quick": {"runs": 1000, "budget_s": 120},
     "thorough": {"runs": 5000, "budget_s": 540},
     "rule": ("one run = sealed tree + rename set + create -dr + follow-up commands + control; one evaluation = one judged "
              "command. Distinct = (#renames, kinds of moves present, #new files, new directory present, format same/"
